@@ -128,29 +128,31 @@ type Operand struct {
 func (o Operand) Present() bool { return o.Kind != KNone }
 
 // Constructors.
-func S(n int) Operand           { return Operand{Kind: KSGPR, N: int64(n)} }
-func V(n int) Operand           { return Operand{Kind: KVGPR, N: int64(n)} }
-func VCC() Operand              { return Operand{Kind: KVCC} }
-func VCCLo() Operand            { return Operand{Kind: KVCCLo} }
-func VCCHi() Operand            { return Operand{Kind: KVCCHi} }
-func Exec() Operand             { return Operand{Kind: KExec} }
-func ExecLo() Operand           { return Operand{Kind: KExecLo} }
-func ExecHi() Operand           { return Operand{Kind: KExecHi} }
-func M0() Operand               { return Operand{Kind: KM0} }
-func SCC() Operand              { return Operand{Kind: KSCC} }
-func VCCZ() Operand             { return Operand{Kind: KVCCZ} }
-func EXECZ() Operand            { return Operand{Kind: KEXECZ} }
-func Ttmp(n int) Operand        { return Operand{Kind: KTtmp, N: int64(n)} }
-func Int(v int) Operand         { return Operand{Kind: KInt, N: int64(v)} }
-func Float(f float64) Operand   { return Operand{Kind: KFloat, F: f} }
-func Lit(bits uint32) Operand   { return Operand{Kind: KLiteral, N: int64(bits)} }
-func LitF32(f float32) Operand  { return Lit(math.Float32bits(f)) }
-func Imm(v uint32) Operand      { return Operand{Kind: KImm, N: int64(v)} }
-func Off() Operand              { return Operand{Kind: KOff} }
-func Raw(code int) Operand      { return Operand{Kind: KRaw, N: int64(code)} }
-func Special(k Kind) Operand    { return Operand{Kind: k} }
-func (o Operand) IsReg() bool   { return o.Present() && !o.IsConst() && o.Kind != KRaw && o.Kind != KOff }
-func (o Operand) IsConst() bool { return o.Kind == KInt || o.Kind == KFloat || o.Kind == KLiteral || o.Kind == KImm }
+func S(n int) Operand          { return Operand{Kind: KSGPR, N: int64(n)} }
+func V(n int) Operand          { return Operand{Kind: KVGPR, N: int64(n)} }
+func VCC() Operand             { return Operand{Kind: KVCC} }
+func VCCLo() Operand           { return Operand{Kind: KVCCLo} }
+func VCCHi() Operand           { return Operand{Kind: KVCCHi} }
+func Exec() Operand            { return Operand{Kind: KExec} }
+func ExecLo() Operand          { return Operand{Kind: KExecLo} }
+func ExecHi() Operand          { return Operand{Kind: KExecHi} }
+func M0() Operand              { return Operand{Kind: KM0} }
+func SCC() Operand             { return Operand{Kind: KSCC} }
+func VCCZ() Operand            { return Operand{Kind: KVCCZ} }
+func EXECZ() Operand           { return Operand{Kind: KEXECZ} }
+func Ttmp(n int) Operand       { return Operand{Kind: KTtmp, N: int64(n)} }
+func Int(v int) Operand        { return Operand{Kind: KInt, N: int64(v)} }
+func Float(f float64) Operand  { return Operand{Kind: KFloat, F: f} }
+func Lit(bits uint32) Operand  { return Operand{Kind: KLiteral, N: int64(bits)} }
+func LitF32(f float32) Operand { return Lit(math.Float32bits(f)) }
+func Imm(v uint32) Operand     { return Operand{Kind: KImm, N: int64(v)} }
+func Off() Operand             { return Operand{Kind: KOff} }
+func Raw(code int) Operand     { return Operand{Kind: KRaw, N: int64(code)} }
+func Special(k Kind) Operand   { return Operand{Kind: k} }
+func (o Operand) IsReg() bool  { return o.Present() && !o.IsConst() && o.Kind != KRaw && o.Kind != KOff }
+func (o Operand) IsConst() bool {
+	return o.Kind == KInt || o.Kind == KFloat || o.Kind == KLiteral || o.Kind == KImm
+}
 
 // InvTwoPi is the value of the inline constant 248.
 const InvTwoPi = 1.0 / (2.0 * math.Pi)
